@@ -49,7 +49,11 @@ where
         if version.as_str() == FSM_READER_VERSION {
             fsm.name = self.reader.read_string();
             fsm.datamodel = self.reader.read_string();
-            fsm.binding = BindingType::from_ordinal(self.reader.read_u8());
+            let binding_ordinal = self.reader.read_u8();
+            if self.reader.has_error() {
+                return Err("Can't read".to_string());
+            }
+            fsm.binding = BindingType::from_ordinal(binding_ordinal);
             fsm.pseudo_root = self.read_state_id();
             fsm.script = self.read_executable_content_id();
 
@@ -77,6 +81,10 @@ where
                 fsm.executableContent.insert(content_id, content);
             }
 
+            // A truncated or failing input makes the reads above return defaults: that is not a model.
+            if self.reader.has_error() {
+                return Err("Can't read".to_string());
+            }
             let end = SystemTime::now().duration_since(UNIX_EPOCH).unwrap();
             info!(
                 "'{}' (RFSM) loaded in {}ms",
